@@ -1,9 +1,643 @@
+/-
+  Proofs/C24: helper lemmas for the integer encodings.
+  Part 1: two's-complement theory (`fitsS`, `MinSigned`, shortest/unique).
+  Part 2: the fuel-bounded Go loops (`Int64ToBytes`, `Uint64ToBytes`, `SizeToBytes`) and decoders.
+  Part 3: `math/big` Bytes/BitLen and `BigIntToBytes`/`BigIntSetBytes`.
+  Part 4: hex text.
+-/
 import Goloop.Model.C24
+import Mathlib.Tactic.Linarith
+import Mathlib.Tactic.Ring
 namespace Goloop.C24.Proofs
 open Goloop Goloop.C24
 
+/-- `v` fits in `k+1` bytes of two's complement. -/
+def fitsS (k : Nat) (v : Int) : Prop := -(128 * (256:Int)^k) ≤ v ∧ v < 128 * (256:Int)^k
+
+theorem pow256_pos (k : Nat) : (0:Int) < (256:Int)^k := by positivity
+
+theorem fitsS_succ {k : Nat} {v : Int} (h : fitsS k v) : fitsS (k+1) v := by
+  unfold fitsS at *
+  have := pow256_pos k
+  rw [Int.pow_succ]; omega
+
+theorem fitsS_mono {k k' : Nat} {v : Int} (hk : k ≤ k') (h : fitsS k v) : fitsS k' v := by
+  induction hk with
+  | refl => exact h
+  | step _ ih => exact fitsS_succ ih
+
+theorem beNat_cast_cons (b : UInt8) (r : Bytes) :
+    ((beNat (b :: r) : Nat) : Int) = (b.toNat : Int) * (256:Int)^r.length + (beNat r : Int) := by
+  rw [beNat_cons]; push_cast; rfl
+
+theorem beInt_cons (b : UInt8) (r : Bytes) :
+    beInt (b :: r) = (if b.toNat ≥ 128 then (b.toNat : Int) - 256 else (b.toNat : Int)) * (256:Int)^r.length + (beNat r : Int) := by
+  unfold beInt
+  simp only [beNat_cast_cons, List.length_cons, Int.pow_succ]
+  split <;> ring
+
+theorem beInt_fits (b : UInt8) (r : Bytes) : fitsS r.length (beInt (b :: r)) := by
+  rw [beInt_cons]
+  have hP := pow256_pos r.length
+  have hr : ((beNat r : Nat) : Int) < (256:Int)^r.length := by
+    have := beNat_lt r; exact_mod_cast this
+  have hr0 : (0:Int) ≤ (beNat r : Int) := Int.natCast_nonneg _
+  have hb := b.toNat_lt
+  unfold fitsS
+  split
+  · constructor <;> nlinarith
+  · constructor <;> nlinarith
+
+theorem beInt_fits' {bs : Bytes} {k : Nat} (h : bs.length = k + 1) : fitsS k (beInt bs) := by
+  match bs, h with
+  | b :: r, h =>
+    have : r.length = k := by simpa using h
+    subst this; exact beInt_fits b r
+
+/-- minimal two's-complement encoding of `v` -/
+structure MinSigned (out : Bytes) (v : Int) : Prop where
+  ne : out ≠ []
+  val : beInt out = v
+  min : ∀ k, out.length = k + 2 → ¬ fitsS k v
+
+theorem minSigned_shortest {out bs : Bytes} {v : Int} (h : MinSigned out v)
+    (hne : bs ≠ []) (hv : beInt bs = v) : out.length ≤ bs.length := by
+  by_contra hlt
+  have hlt : bs.length < out.length := by omega
+  obtain ⟨j, hj⟩ : ∃ j, bs.length = j + 1 := by
+    cases bs with
+    | nil => exact absurd rfl hne
+    | cons b r => exact ⟨r.length, rfl⟩
+  obtain ⟨k, hk⟩ : ∃ k, out.length = k + 2 := ⟨out.length - 2, by omega⟩
+  have hf : fitsS j v := hv ▸ beInt_fits' hj
+  exact h.min k hk (fitsS_mono (by omega) hf)
+
+theorem beNat_inj : ∀ {a b : Bytes}, a.length = b.length → beNat a = beNat b → a = b
+  | [], [], _, _ => rfl
+  | [], _ :: _, h, _ => by simp at h
+  | _ :: _, [], h, _ => by simp at h
+  | x :: xs, y :: ys, h, hv => by
+    have hl : xs.length = ys.length := by simpa using h
+    rw [beNat_cons, beNat_cons, hl] at hv
+    have h1 := beNat_lt xs; have h2 := beNat_lt ys
+    rw [hl] at h1
+    have hP : 0 < 256 ^ ys.length := Nat.pow_pos (by decide)
+    have hxy : x.toNat = y.toNat := by
+      by_contra hne
+      rcases Nat.lt_or_gt_of_ne hne with hlt | hlt
+      · have : (x.toNat + 1) * 256 ^ ys.length ≤ y.toNat * 256 ^ ys.length := Nat.mul_le_mul_right _ hlt
+        rw [Nat.add_mul] at this; omega
+      · have : (y.toNat + 1) * 256 ^ ys.length ≤ x.toNat * 256 ^ ys.length := Nat.mul_le_mul_right _ hlt
+        rw [Nat.add_mul] at this; omega
+    have hx : x = y := UInt8.toNat_inj.mp hxy
+    rw [hxy] at hv
+    have : beNat xs = beNat ys := by omega
+    rw [hx, beNat_inj hl this]
+
+/-- value-level form of `beInt`: the sign is decided by the magnitude. -/
+theorem beInt_eq_of_lt {bs : Bytes} {k : Nat} (hl : bs.length = k + 1)
+    (h : beNat bs < 128 * 256 ^ k) : beInt bs = (beNat bs : Int) := by
+  match bs, hl with
+  | b :: r, hl =>
+    have hk : r.length = k := by simpa using hl
+    subst hk
+    unfold beInt
+    have : ¬ b.toNat ≥ 128 := by
+      intro hb
+      rw [beNat_cons] at h
+      have : 128 * 256 ^ r.length ≤ b.toNat * 256 ^ r.length := Nat.mul_le_mul_right _ hb
+      omega
+    simp [this]
+
+theorem beInt_eq_of_ge {bs : Bytes} {k : Nat} (hl : bs.length = k + 1)
+    (h : 128 * 256 ^ k ≤ beNat bs) : beInt bs = (beNat bs : Int) - (256:Int) ^ (k+1) := by
+  match bs, hl with
+  | b :: r, hl =>
+    have hk : r.length = k := by simpa using hl
+    subst hk
+    unfold beInt
+    have : b.toNat ≥ 128 := by
+      by_contra hb
+      rw [beNat_cons] at h
+      have h2 := beNat_lt r
+      have : b.toNat * 256 ^ r.length ≤ 127 * 256 ^ r.length := Nat.mul_le_mul_right _ (by omega)
+      omega
+    simp [this]
+
+theorem beInt_inj {a b : Bytes} (hl : a.length = b.length) (hv : beInt a = beInt b) : a = b := by
+  cases a with
+  | nil => cases b with
+    | nil => rfl
+    | cons _ _ => simp at hl
+  | cons x xs => cases b with
+    | nil => simp at hl
+    | cons y ys =>
+      apply beNat_inj hl
+      have hl' : xs.length = ys.length := by simpa using hl
+      have ha := beNat_lt (x :: xs); have hb := beNat_lt (y :: ys)
+      simp only [List.length_cons] at ha hb
+      rw [hl'] at ha
+      have ha' : ((beNat (x :: xs) : Nat) : Int) < (256:Int)^(ys.length+1) := by exact_mod_cast ha
+      have hb' : ((beNat (y :: ys) : Nat) : Int) < (256:Int)^(ys.length+1) := by exact_mod_cast hb
+      have e1 : (128:Int) * 256 ^ ys.length * 2 = (256:Int)^(ys.length+1) := by rw [Int.pow_succ]; ring
+      by_cases c1 : beNat (x :: xs) < 128 * 256 ^ ys.length <;> by_cases c2 : beNat (y :: ys) < 128 * 256 ^ ys.length
+      · rw [beInt_eq_of_lt (k := ys.length) (by simp [hl']) c1, beInt_eq_of_lt (k := ys.length) (by simp) c2] at hv
+        exact_mod_cast hv
+      · rw [beInt_eq_of_lt (k := ys.length) (by simp [hl']) c1, beInt_eq_of_ge (k := ys.length) (by simp) (by omega)] at hv
+        have : (0:Int) ≤ (beNat (x :: xs) : Int) := Int.natCast_nonneg _
+        omega
+      · rw [beInt_eq_of_ge (k := ys.length) (by simp [hl']) (by omega), beInt_eq_of_lt (k := ys.length) (by simp) c2] at hv
+        have : (0:Int) ≤ (beNat (y :: ys) : Int) := Int.natCast_nonneg _
+        omega
+      · rw [beInt_eq_of_ge (k := ys.length) (by simp [hl']) (by omega), beInt_eq_of_ge (k := ys.length) (by simp) (by omega)] at hv
+        have : ((beNat (x :: xs) : Nat) : Int) = (beNat (y :: ys) : Int) := by omega
+        exact_mod_cast this
+
+theorem minSigned_unique {a b : Bytes} {v : Int} (ha : MinSigned a v) (hb : MinSigned b v) : a = b := by
+  have h1 := minSigned_shortest ha hb.ne hb.val
+  have h2 := minSigned_shortest hb ha.ne ha.val
+  exact beInt_inj (by omega) (ha.val.trans hb.val.symm)
+
+
+/-! ### bytes of the loops -/
+
 theorem byteOfNat_toNat (v : Nat) : (byteOfNat v).toNat = v % 256 := by
   simp [byteOfNat]
+
+theorem byteOfInt_toNat (v : Int) : ((byteOfInt v).toNat : Int) = v % 256 := by
+  unfold byteOfInt
+  have h : (UInt8.ofNat (v.emod 256).toNat).toNat = (v.emod 256).toNat % 256 := by simp
+  rw [h]
+  have : v.emod 256 = v % 256 := rfl
+  omega
+
+theorem beInt_single (b : UInt8) :
+    beInt [b] = if b.toNat ≥ 128 then (b.toNat : Int) - 256 else (b.toNat : Int) := by
+  rw [beInt_cons]; simp [beNat]
+
+theorem beInt_snoc {pre : Bytes} (hne : pre ≠ []) (b : UInt8) :
+    beInt (pre ++ [b]) = beInt pre * 256 + (b.toNat : Int) := by
+  cases pre with
+  | nil => exact absurd rfl hne
+  | cons x xs =>
+    rw [List.cons_append, beInt_cons, beInt_cons, beNat_append_singleton]
+    simp only [List.length_append, List.length_cons, List.length_nil, Nat.zero_add, Int.pow_succ]
+    push_cast; ring
+
+theorem minSigned_single {b : UInt8} {v : Int} (h : beInt [b] = v) : MinSigned [b] v :=
+  ⟨by simp, h, by intro k hk; simp at hk⟩
+
+theorem minSigned_snoc {pre : Bytes} {w v : Int} {b : UInt8} (h : MinSigned pre w)
+    (hv : w * 256 + (b.toNat : Int) = v) (hb : (b.toNat : Int) = v % 256)
+    (hbig : ¬ fitsS 0 v) : MinSigned (pre ++ [b]) v := by
+  refine ⟨by simp, ?_, ?_⟩
+  · rw [beInt_snoc h.ne, h.val, hv]
+  · intro k hk
+    have hl : pre.length = k + 1 := by simpa using hk
+    cases k with
+    | zero => exact hbig
+    | succ k' =>
+      have hm := h.min k' hl
+      intro hf; apply hm
+      unfold fitsS at *
+      have hP := pow256_pos k'
+      rw [Int.pow_succ] at hf
+      have hbl := b.toNat_lt
+      constructor <;> omega
+
+/-! ### Int64ToBytes -/
+
+theorem int64Loop_spec : ∀ (f : Nat) (v : Int) (acc : Bytes), fitsS f v →
+    ∃ pre, int64Loop (if v < 0 then -128 else 0) (f + 1) v acc = pre ++ acc ∧
+      pre.length ≤ f + 1 ∧ MinSigned pre v
+  | f, v, acc, hf => by
+    unfold int64Loop
+    have hb := byteOfInt_toNat v
+    have hbl := (byteOfInt v).toNat_lt
+    have hem : v.emod 128 = v % 128 := rfl
+    by_cases ht : v - v.emod 128 = (if v < 0 then -128 else 0)
+    · simp only [ht, if_true]
+      refine ⟨[byteOfInt v], rfl, by simp, minSigned_single ?_⟩
+      rw [beInt_single]
+      split at ht <;> split <;> omega
+    · simp only [ht, if_false]
+      have hbig : ¬ fitsS 0 v := by
+        unfold fitsS; simp only [Int.pow_zero]
+        intro hc; apply ht
+        split <;> omega
+      cases f with
+      | zero => exact absurd hf hbig
+      | succ f' =>
+        have hf' : fitsS f' (v / 256) := by
+          unfold fitsS at *
+          have hP := pow256_pos f'
+          rw [Int.pow_succ] at hf
+          constructor <;> omega
+        have htg : (if v / 256 < 0 then (-128:Int) else 0) = (if v < 0 then -128 else 0) := by
+          split <;> split <;> omega
+        obtain ⟨pre, he, hl, hm⟩ := int64Loop_spec f' (v / 256) (byteOfInt v :: acc) hf'
+        rw [htg] at he
+        refine ⟨pre ++ [byteOfInt v], by rw [he]; simp, by simp; omega, ?_⟩
+        exact minSigned_snoc hm (by omega) hb hbig
+
+theorem fitsS7_iff (v : Int) : fitsS 7 v ↔ -(2:Int)^63 ≤ v ∧ v < (2:Int)^63 := by
+  unfold fitsS
+  have : (128:Int) * 256 ^ 7 = 2 ^ 63 := by decide
+  rw [this]
+
+theorem int64ToBytes_spec (v : Int) (h : -(2:Int)^63 ≤ v ∧ v < (2:Int)^63) :
+    MinSigned (int64ToBytes v) v ∧ (int64ToBytes v).length ≤ 8 := by
+  unfold int64ToBytes
+  by_cases h0 : v = 0
+  · subst h0; simp only [if_true]
+    exact ⟨minSigned_single (by decide), by simp⟩
+  · simp only [h0, if_false]
+    obtain ⟨pre, he, hl, hm⟩ := int64Loop_spec 7 v [] ((fitsS7_iff v).mpr h)
+    simp only [List.append_nil] at he
+    rw [he]; exact ⟨hm, hl⟩
+
+/-! ### SafeBytesToInt64 -/
+
+set_option maxRecDepth 10000 in
+theorem xor255 : ∀ x : Fin 256, x.val ^^^ 255 = 255 - x.val := by decide
+
+theorem toNat_xor_ff (b : UInt8) : (b ^^^ 0xff).toNat = 255 - b.toNat := by
+  rw [UInt8.toNat_xor]
+  exact xor255 ⟨b.toNat, b.toNat_lt⟩
+
+theorem beNat_compl (bs : Bytes) :
+    beNat (bs.map (fun x => x ^^^ 0xff)) + beNat bs + 1 = 256 ^ bs.length := by
+  induction bs with
+  | nil => simp [beNat]
+  | cons b r ih =>
+    rw [List.map_cons, beNat_cons, beNat_cons, List.length_map, toNat_xor_ff, List.length_cons, Nat.pow_succ]
+    have hb := b.toNat_lt
+    have : (255 - b.toNat) * 256 ^ r.length + b.toNat * 256 ^ r.length = 255 * 256 ^ r.length := by
+      rw [← Nat.add_mul]; congr 1; omega
+    omega
+
+theorem safeBytesToInt64_eq (bs : Bytes) :
+    safeBytesToInt64 bs = if bs.length > 8 then none else some (beInt bs) := by
+  cases bs with
+  | nil => simp [safeBytesToInt64, beInt]
+  | cons b r =>
+    unfold safeBytesToInt64
+    by_cases hl : (b :: r).length > 8
+    · simp only [hl, if_true]
+    · simp only [hl, if_false]
+      unfold beInt
+      by_cases hb : b.toNat ≥ 128
+      · simp only [hb, if_true]
+        have := beNat_compl (b :: r)
+        have h2 : ((beNat ((b :: r).map (fun x => x ^^^ 0xff)) : Nat) : Int) + (beNat (b :: r) : Int) + 1
+            = (256:Int) ^ (b :: r).length := by exact_mod_cast this
+        congr 1; omega
+      · simp only [hb, if_false]
+
+
+/-! ### Uint64ToBytes / SafeBytesToUint64 -/
+
+theorem uint64Loop_spec : ∀ (f : Nat) (v : Nat) (acc : Bytes), fitsS f (v : Int) →
+    ∃ pre, uint64Loop (f + 1) v acc = pre ++ acc ∧ pre.length ≤ f + 1 ∧ MinSigned pre (v : Int)
+  | f, v, acc, hf => by
+    unfold uint64Loop
+    have hb := byteOfNat_toNat v
+    by_cases ht : v / 256 = 0 ∧ v % 256 < 128
+    · simp only [ht, and_self, if_true]
+      refine ⟨[byteOfNat v], rfl, by simp, minSigned_single ?_⟩
+      rw [beInt_single, hb]
+      split <;> omega
+    · simp only [ht, if_false]
+      have hbig : ¬ fitsS 0 (v : Int) := by
+        unfold fitsS; simp only [Int.pow_zero]
+        intro hc; apply ht; omega
+      cases f with
+      | zero => exact absurd hf hbig
+      | succ f' =>
+        have hf' : fitsS f' ((v / 256 : Nat) : Int) := by
+          unfold fitsS at *
+          have hP := pow256_pos f'
+          rw [Int.pow_succ] at hf
+          constructor <;> omega
+        obtain ⟨pre, he, hl, hm⟩ := uint64Loop_spec f' (v / 256) (byteOfNat v :: acc) hf'
+        refine ⟨pre ++ [byteOfNat v], by rw [he]; simp, by simp; omega, ?_⟩
+        exact minSigned_snoc hm (by omega) (by omega) hbig
+
+theorem uint64ToBytes_spec (v : Nat) (h : v < 2 ^ 64) :
+    MinSigned (uint64ToBytes v) (v : Int) ∧ (uint64ToBytes v).length ≤ 9 := by
+  unfold uint64ToBytes
+  by_cases h0 : v = 0
+  · subst h0; simp only [if_true]
+    exact ⟨minSigned_single (by decide), by simp⟩
+  · simp only [h0, if_false]
+    have hf : fitsS 8 (v : Int) := by
+      unfold fitsS
+      have : (128:Int) * 256 ^ 8 = 2 ^ 71 := by decide
+      rw [this]
+      have : ((v : Nat) : Int) < ((2 ^ 64 : Nat) : Int) := by exact_mod_cast h
+      have e : ((2 ^ 64 : Nat) : Int) = 18446744073709551616 := by decide
+      have e2 : (2:Int) ^ 71 = 2361183241434822606848 := by decide
+      omega
+    obtain ⟨pre, he, hl, hm⟩ := uint64Loop_spec 8 v [] hf
+    simp only [List.append_nil] at he
+    rw [he]; exact ⟨hm, hl⟩
+
+theorem beInt_zero_cons (r : Bytes) : beInt (0 :: r) = (beNat r : Int) := by
+  rw [beInt_cons]; simp
+
+/-- what `SafeBytesToUint64` computes, in terms of the two's-complement value -/
+theorem safeBytesToUint64_some {bs : Bytes} {v : Nat} (h : safeBytesToUint64 bs = some v) :
+    beInt bs = (v : Int) ∧ v < 2 ^ 64 := by
+  cases bs with
+  | nil => simp [safeBytesToUint64] at h; subst h; simp [beInt]
+  | cons b r =>
+    unfold safeBytesToUint64 at h
+    have e8 : 256 ^ 8 = 2 ^ 64 := by decide
+    by_cases hb0 : b = 0
+    · subst hb0
+      simp only [if_true] at h
+      by_cases hl : r.length > 8
+      · simp [hl] at h
+      · simp only [hl, if_false, Option.some.injEq] at h
+        subst h
+        refine ⟨beInt_zero_cons r, ?_⟩
+        have := beNat_lt r
+        have : 256 ^ r.length ≤ 256 ^ 8 := Nat.pow_le_pow_right (by decide) (by omega)
+        omega
+    · simp only [hb0, if_false] at h
+      by_cases hb : b.toNat ≥ 128
+      · simp [hb] at h
+      · simp only [hb, if_false] at h
+        by_cases hl : (b :: r).length > 8
+        · rw [if_pos hl] at h; cases h
+        · simp only [hl, if_false, Option.some.injEq] at h
+          subst h
+          constructor
+          · unfold beInt; simp [hb]
+          · have := beNat_lt (b :: r)
+            have : 256 ^ (b :: r).length ≤ 256 ^ 8 := Nat.pow_le_pow_right (by decide) (by omega)
+            omega
+
+/-- conversely: everything `SafeBytesToUint64` must accept, it accepts. -/
+theorem safeBytesToUint64_accepts {b : UInt8} {r : Bytes} (hb : b.toNat < 128)
+    (hl : (b :: r).length ≤ 9) (hv : beNat (b :: r) < 2 ^ 64) :
+    safeBytesToUint64 (b :: r) = some (beNat (b :: r)) := by
+  unfold safeBytesToUint64
+  by_cases hb0 : b = 0
+  · subst hb0
+    have : ¬ r.length > 8 := by simp at hl; omega
+    simp only [if_true, this, if_false]
+    rw [beNat_cons]; simp
+  · have hbn : ¬ b.toNat ≥ 128 := by omega
+    simp only [hb0, if_false, hbn]
+    have : ¬ (b :: r).length > 8 := by
+      intro hc
+      have hl9 : r.length = 8 := by simp at hl hc; omega
+      rw [beNat_cons, hl9] at hv
+      have hb1 : 1 ≤ b.toNat := by
+        have : b.toNat ≠ 0 := fun hz => hb0 (UInt8.toNat_inj.mp (by simpa using hz))
+        omega
+      have : 1 * 256 ^ 8 ≤ b.toNat * 256 ^ 8 := Nat.mul_le_mul_right _ hb1
+      have e8 : 256 ^ 8 = 2 ^ 64 := by decide
+      omega
+    simp only [this, if_false]
+
+theorem head_lt_128_of_beInt_nonneg {b : UInt8} {r : Bytes} (h : 0 ≤ beInt (b :: r)) : b.toNat < 128 := by
+  by_contra hb
+  have hb : b.toNat ≥ 128 := by omega
+  rw [beInt_cons] at h
+  simp only [hb, if_true] at h
+  have hr : ((beNat r : Nat) : Int) < (256:Int)^r.length := by
+    have := beNat_lt r; exact_mod_cast this
+  have hbl := b.toNat_lt
+  have hP := pow256_pos r.length
+  nlinarith
+
+theorem beInt_eq_beNat_of_head {b : UInt8} {r : Bytes} (hb : b.toNat < 128) :
+    beInt (b :: r) = (beNat (b :: r) : Int) := by
+  unfold beInt
+  have : ¬ b.toNat ≥ 128 := by omega
+  simp [this]
+
+theorem uint64_roundtrip (v : Nat) (h : v < 2 ^ 64) :
+    safeBytesToUint64 (uint64ToBytes v) = some v := by
+  obtain ⟨hm, hl⟩ := uint64ToBytes_spec v h
+  generalize uint64ToBytes v = out at hm hl
+  cases out with
+  | nil => exact absurd rfl hm.ne
+  | cons b r =>
+    have hb : b.toNat < 128 := head_lt_128_of_beInt_nonneg (by rw [hm.val]; exact Int.natCast_nonneg _)
+    have hv := hm.val
+    rw [beInt_eq_beNat_of_head hb] at hv
+    have hv : beNat (b :: r) = v := by exact_mod_cast hv
+    rw [safeBytesToUint64_accepts hb hl (by omega), hv]
+
+
+/-! ### math/big: Bytes, BitLen -/
+
+theorem natBytesAux_spec : ∀ (fuel v : Nat) (acc : Bytes), v < fuel →
+    ∃ pre, natBytesAux fuel v acc = pre ++ acc ∧ beNat pre = v ∧ (v = 0 → pre = []) ∧
+      (v ≠ 0 → ∃ L, pre.length = L + 1 ∧ 256 ^ L ≤ v ∧ v < 256 ^ (L + 1))
+  | 0, v, acc, h => by omega
+  | fuel + 1, v, acc, h => by
+    unfold natBytesAux
+    by_cases h0 : v = 0
+    · simp only [h0, if_true]
+      exact ⟨[], rfl, by simp [beNat], fun _ => rfl, fun hc => absurd rfl hc⟩
+    · rw [if_neg h0]
+      obtain ⟨pre, he, hv, hz, hnz⟩ := natBytesAux_spec fuel (v / 256) (byteOfNat v :: acc) (by omega)
+      refine ⟨pre ++ [byteOfNat v], by rw [he]; simp, ?_, fun hc => absurd hc h0, fun _ => ?_⟩
+      · rw [beNat_append_singleton, hv, byteOfNat_toNat]; omega
+      · by_cases hq : v / 256 = 0
+        · have := hz hq; subst this
+          exact ⟨0, by simp, by simp; omega, by simp; omega⟩
+        · obtain ⟨L, hL, h1, h2⟩ := hnz hq
+          refine ⟨L + 1, by simp [hL], ?_, ?_⟩
+          · rw [Nat.pow_succ]; omega
+          · have : 256 ^ (L + 1 + 1) = 256 ^ (L + 1) * 256 := by rw [Nat.pow_succ]
+            omega
+
+theorem natBytes_zero : natBytes 0 = [] := by
+  simp [natBytes, natBytesAux]
+
+theorem natBytes_spec (v : Nat) (h : v ≠ 0) :
+    beNat (natBytes v) = v ∧ ∃ L, (natBytes v).length = L + 1 ∧ 256 ^ L ≤ v ∧ v < 256 ^ (L + 1) := by
+  obtain ⟨pre, he, hv, _, hnz⟩ := natBytesAux_spec (v + 1) v [] (by omega)
+  simp only [List.append_nil] at he
+  unfold natBytes; rw [he]
+  exact ⟨hv, hnz h⟩
+
+theorem beNat_natBytes (v : Nat) : beNat (natBytes v) = v := by
+  by_cases h : v = 0
+  · subst h; simp [natBytes_zero, beNat]
+  · exact (natBytes_spec v h).1
+
+theorem pow256_eq (L : Nat) : 256 ^ L = 2 ^ (8 * L) := by
+  rw [Nat.pow_mul]
+
+/-- the defining property of `BitLen` -/
+theorem bitLen_spec (v : Nat) (h : v ≠ 0) : 2 ^ (bitLen v - 1) ≤ v ∧ v < 2 ^ bitLen v ∧ 1 ≤ bitLen v := by
+  unfold bitLen
+  simp only [h, if_false, Nat.add_sub_cancel]
+  exact ⟨Nat.log2_self_le h, Nat.lt_log2_self, by omega⟩
+
+theorem bitLen_lt_iff (v k : Nat) : v < 2 ^ k ↔ bitLen v ≤ k := by
+  unfold bitLen
+  by_cases h : v = 0
+  · subst h; simp
+  · simp only [h, if_false]
+    rw [← Nat.log2_lt h]; omega
+
+theorem bitLen_zero : bitLen 0 = 0 := by simp [bitLen]
+
+/-- length of `Bytes()` is ⌈BitLen/8⌉ -/
+theorem natBytes_length_bitLen (v : Nat) {L : Nat}
+    (h1 : 256 ^ L ≤ v) (h2 : v < 256 ^ (L + 1)) : 8 * L < bitLen v ∧ bitLen v ≤ 8 * (L + 1) := by
+  rw [pow256_eq] at h1 h2
+  constructor
+  · by_contra hc
+    have : v < 2 ^ (8 * L) := (bitLen_lt_iff v _).mpr (by omega)
+    omega
+  · exact (bitLen_lt_iff v _).mp h2
+
+/-! ### BigIntToBytes / BigIntSetBytes -/
+
+theorem bigIntSetBytes_eq_beInt (bs : Bytes) : bigIntSetBytes bs = beInt bs := by
+  cases bs with
+  | nil => simp [bigIntSetBytes, beInt]
+  | cons b r =>
+    unfold bigIntSetBytes beInt
+    by_cases hb : b.toNat ≥ 128
+    · simp only [hb, if_true]
+      -- BitLen of the magnitude is exactly 8*len when the top bit is set
+      have hlt := beNat_lt (b :: r)
+      have hge : 128 * 256 ^ r.length ≤ beNat (b :: r) := by
+        rw [beNat_cons]
+        have : 128 * 256 ^ r.length ≤ b.toNat * 256 ^ r.length := Nat.mul_le_mul_right _ hb
+        omega
+      have hbl : bitLen (beNat (b :: r)) = 8 * (b :: r).length := by
+        rw [pow256_eq] at hlt hge
+        have hle := (bitLen_lt_iff _ _).mp hlt
+        have : ¬ bitLen (beNat (b :: r)) ≤ 8 * r.length + 7 := by
+          intro hc
+          have := (bitLen_lt_iff _ _).mpr hc
+          have e : 2 ^ (8 * r.length + 7) = 128 * 2 ^ (8 * r.length) := by
+            rw [Nat.pow_add]; omega
+          omega
+        simp only [List.length_cons] at *
+        omega
+      rw [hbl, Int.pow_mul]
+      norm_num
+    · simp only [hb, if_false]
+
+theorem two_pow_cast (k : Nat) : (((2:Nat) ^ k : Nat) : Int) = (2:Int) ^ k := by push_cast; rfl
+
+theorem bigIntToBytes_spec (i : Int) : MinSigned (bigIntToBytes i) i := by
+  unfold bigIntToBytes
+  by_cases h0 : i = 0
+  · subst h0; simp only [if_true]; exact minSigned_single (by decide)
+  · simp only [h0, if_false]
+    by_cases hpos : i > 0
+    · simp only [hpos, if_true]
+      have hn0 : i.toNat ≠ 0 := by omega
+      have hi : ((i.toNat : Nat) : Int) = i := by omega
+      obtain ⟨hv, L, hL, h1, h2⟩ := natBytes_spec i.toNat hn0
+      obtain ⟨hb1, hb2⟩ := natBytes_length_bitLen i.toNat h1 h2
+      obtain ⟨hs1, hs2, _⟩ := bitLen_spec i.toNat hn0
+      by_cases hm : bitLen i.toNat % 8 = 0
+      · simp only [hm, if_true]
+        have hbl : bitLen i.toNat = 8 * (L + 1) := by omega
+        refine ⟨by simp, ?_, ?_⟩
+        · rw [beInt_zero_cons, hv, hi]
+        · intro k hk
+          have hkL : k = L := by simp [hL] at hk; omega
+          subst hkL
+          unfold fitsS
+          intro hc
+          have e : 2 ^ (bitLen i.toNat - 1) = 128 * 256 ^ k := by
+            rw [hbl, pow256_eq]
+            have : 8 * (k + 1) - 1 = 8 * k + 7 := by omega
+            rw [this, Nat.pow_add]; omega
+          rw [e] at hs1
+          have : ((128 * 256 ^ k : Nat) : Int) ≤ ((i.toNat : Nat) : Int) := by exact_mod_cast hs1
+          rw [hi] at this
+          push_cast at this
+          omega
+      · simp only [hm, if_false]
+        have hlt : i.toNat < 128 * 256 ^ L := by
+          have : i.toNat < 2 ^ (8 * L + 7) := (bitLen_lt_iff _ _).mpr (by omega)
+          rw [Nat.pow_add, ← pow256_eq] at this; omega
+        refine ⟨by intro hc; rw [hc] at hL; simp at hL, ?_, ?_⟩
+        · rw [beInt_eq_of_lt hL (by rw [hv]; exact hlt), hv, hi]
+        · intro k hk
+          have hkL : L = k + 1 := by omega
+          subst hkL
+          unfold fitsS
+          intro hc
+          have : ((256 ^ (k + 1) : Nat) : Int) ≤ ((i.toNat : Nat) : Int) := by exact_mod_cast h1
+          rw [hi] at this
+          push_cast at this
+          rw [Int.pow_succ] at this
+          have := pow256_pos k
+          omega
+    · simp only [hpos, if_false]
+      have hneg : i < 0 := by omega
+      -- m = -(i+1) ≥ 0
+      generalize hm : (i + 1).natAbs = m
+      have hmi : (m : Int) = -i - 1 := by omega
+      generalize hW : (bitLen m + 8) / 8 = W
+      have hW1 : 1 ≤ W := by omega
+      obtain ⟨W', rfl⟩ : ∃ W', W = W' + 1 := ⟨W - 1, by omega⟩
+      have hblW : bitLen m ≤ 8 * W' + 7 := by omega
+      have hblW2 : 8 * W' ≤ bitLen m := by omega
+      have hmlt : m < 128 * 256 ^ W' := by
+        have : m < 2 ^ (8 * W' + 7) := (bitLen_lt_iff _ _).mpr hblW
+        rw [Nat.pow_add, ← pow256_eq] at this; omega
+      have hmlt' : (m : Int) < 128 * (256:Int) ^ W' := by exact_mod_cast hmlt
+      have hP := pow256_pos W'
+      have e2 : (2:Int) ^ ((W' + 1) * 8) = (256:Int) ^ W' * 256 := by
+        rw [Nat.mul_comm, Int.pow_mul, Int.pow_succ]; norm_num
+      rw [e2]
+      generalize hnb : ((256:Int) ^ W' * 256 + i).toNat = nb
+      have hnbi : (nb : Int) = (256:Int) ^ W' * 256 + i := by omega
+      have hnb_ge : 128 * 256 ^ W' ≤ nb := by
+        have : ((128 * 256 ^ W' : Nat) : Int) ≤ (nb : Int) := by push_cast; omega
+        exact_mod_cast this
+      have hnb_lt : nb < 256 ^ (W' + 1) := by
+        have : (nb : Int) < ((256 ^ (W' + 1) : Nat) : Int) := by push_cast; rw [Int.pow_succ]; omega
+        exact_mod_cast this
+      have hP' : 0 < 256 ^ W' := Nat.pow_pos (by decide)
+      have hn0 : nb ≠ 0 := by omega
+      obtain ⟨hv, L, hL, h1, h2⟩ := natBytes_spec nb hn0
+      have hLW : L = W' := by
+        have a1 : 256 ^ L < 256 ^ (W' + 1) := by omega
+        have a2 : 256 ^ W' < 256 ^ (L + 1) := by omega
+        have := (Nat.pow_lt_pow_iff_right (a := 256) (by decide)).mp a1
+        have := (Nat.pow_lt_pow_iff_right (a := 256) (by decide)).mp a2
+        omega
+      subst hLW
+      refine ⟨by intro hc; rw [hc] at hL; simp at hL, ?_, ?_⟩
+      · rw [beInt_eq_of_ge hL (by rw [hv]; exact hnb_ge), hv, hnbi, Int.pow_succ]; omega
+      · intro k hk
+        have hkL : L = k + 1 := by omega
+        subst hkL
+        unfold fitsS
+        intro hc
+        -- m ≥ 2^(bitLen m - 1) ≥ 2^(8k+7) = 128*256^k
+        have hm0 : m ≠ 0 := by
+          intro hz; subst hz; rw [bitLen_zero] at hblW2; omega
+        obtain ⟨hs1, _, _⟩ := bitLen_spec m hm0
+        have : 2 ^ (8 * k + 7) ≤ 2 ^ (bitLen m - 1) := Nat.pow_le_pow_right (by decide) (by omega)
+        have e : 2 ^ (8 * k + 7) = 128 * 256 ^ k := by rw [Nat.pow_add, ← pow256_eq]; omega
+        have : ((128 * 256 ^ k : Nat) : Int) ≤ (m : Int) := by exact_mod_cast (by omega : 128 * 256 ^ k ≤ m)
+        push_cast at this
+        omega
+
+theorem big_roundtrip (i : Int) : bigIntSetBytes (bigIntToBytes i) = i := by
+  rw [bigIntSetBytes_eq_beInt]; exact (bigIntToBytes_spec i).val
+
+
+/-! ### SizeToBytes -/
 
 theorem sizeLoop_spec : ∀ (f v : Nat) (acc : Bytes), v ≠ 0 → v < 256 ^ f →
     ∃ pre, sizeLoop f v acc = pre ++ acc ∧ pre.length ≤ f ∧ pre ≠ [] ∧ beNat pre = v ∧ pre.head? ≠ some 0
@@ -57,5 +691,320 @@ theorem size_minimal (v : Nat) (h : v < 2 ^ 64) :
     obtain ⟨pre, he, _, hne, _, hh⟩ := sizeLoop_spec 8 v [] h0 hlt
     simp only [List.append_nil] at he
     rw [he]; exact ⟨hh, hne⟩
+
+/-! ### hex text -/
+
+/-- value of a nibble string -/
+def hexVal (ns : List Nat) (acc : Nat) : Nat := ns.foldl (fun a n => a * 16 + n) acc
+
+theorem hexVal_cons (n : Nat) (ns : List Nat) (acc : Nat) : hexVal (n :: ns) acc = hexVal ns (acc * 16 + n) := rfl
+
+theorem hexVal_ge (ns : List Nat) (acc : Nat) : acc ≤ hexVal ns acc := by
+  induction ns generalizing acc with
+  | nil => exact Nat.le_refl _
+  | cons n ns ih => rw [hexVal_cons]; have := ih (acc * 16 + n); omega
+
+def nibbles (bs : Bytes) : List Nat := bs.flatMap (fun b => [b.toNat / 16, b.toNat % 16])
+
+theorem nibbles_lt (bs : Bytes) : ∀ n ∈ nibbles bs, n < 16 := by
+  intro n hn
+  unfold nibbles at hn
+  rw [List.mem_flatMap] at hn
+  obtain ⟨b, _, hb⟩ := hn
+  have := b.toNat_lt
+  simp at hb
+  omega
+
+theorem hexVal_nibbles (bs : Bytes) (acc : Nat) :
+    hexVal (nibbles bs) acc = acc * 256 ^ bs.length + beNat bs := by
+  induction bs generalizing acc with
+  | nil => simp [nibbles, hexVal, beNat]
+  | cons b r ih =>
+    have : nibbles (b :: r) = (b.toNat / 16) :: (b.toNat % 16) :: nibbles r := by simp [nibbles]
+    rw [this, hexVal_cons, hexVal_cons, ih, beNat_cons, List.length_cons, Nat.pow_succ]
+    have e : (acc * 16 + b.toNat / 16) * 16 + b.toNat % 16 = acc * 256 + b.toNat := by omega
+    rw [e, Nat.add_mul, Nat.mul_assoc, Nat.mul_comm 256]
+    omega
+
+theorem encode_toList (bs : Bytes) : (Hex.encode bs).toList = (nibbles bs).map Hex.digit := by
+  unfold Hex.encode nibbles
+  rw [String.toList_ofList]
+  induction bs with
+  | nil => rfl
+  | cons b r ih => simp [Hex.ofByte, ih]
+
+set_option maxRecDepth 4000 in
+theorem digit_facts : ∀ n : Fin 16,
+    scanDigit (Hex.digit n.val) = n.val ∧ puDigit (Hex.digit n.val) = some n.val ∧
+    Hex.digit n.val ≠ '_' ∧ Hex.digit n.val ≠ '-' ∧ Hex.digit n.val ≠ '+' ∧
+    (Hex.digit n.val = '0' ↔ n.val = 0) := by decide
+
+theorem digit_facts' {n : Nat} (h : n < 16) :
+    scanDigit (Hex.digit n) = n ∧ puDigit (Hex.digit n) = some n ∧
+    Hex.digit n ≠ '_' ∧ Hex.digit n ≠ '-' ∧ Hex.digit n ≠ '+' ∧ (Hex.digit n = '0' ↔ n = 0) :=
+  digit_facts ⟨n, h⟩
+
+def hexPrefix (neg : Bool) : List Char := if neg then ['-', '0', 'x'] else ['0', 'x']
+
+/-- shape of the output of `encodeHexNumber`: sign, `0x`, then a NON-EMPTY lower-case digit string
+    whose value is the big-endian value of the bytes. -/
+theorem encodeHexNumber_shape (neg : Bool) (bs : Bytes) (hneg : bs = [] → neg = false) :
+    ∃ ns : List Nat, ns ≠ [] ∧ (∀ n ∈ ns, n < 16) ∧ hexVal ns 0 = beNat bs ∧
+      (encodeHexNumber neg bs).toList = hexPrefix neg ++ ns.map Hex.digit := by
+  unfold encodeHexNumber
+  simp only [encode_toList]
+  cases bs with
+  | nil =>
+    refine ⟨[0], by simp, by simp, by simp [hexVal, beNat], ?_⟩
+    rw [hneg rfl]; decide
+  | cons b r =>
+    have hn : nibbles (b :: r) = (b.toNat / 16) :: (b.toNat % 16) :: nibbles r := by simp [nibbles]
+    have hlt := nibbles_lt (b :: r)
+    have hval := hexVal_nibbles (b :: r) 0
+    rw [hn] at hlt hval
+    rw [hn]
+    simp only [List.map_cons]
+    have hb := b.toNat_lt
+    have hd := digit_facts' (n := b.toNat / 16) (by omega)
+    by_cases hz : b.toNat / 16 = 0
+    · have hc : Hex.digit (b.toNat / 16) = '0' := hd.2.2.2.2.2.mpr hz
+      simp only [hc, if_true]
+      refine ⟨(b.toNat % 16) :: nibbles r, by simp, ?_, ?_, ?_⟩
+      · intro n hn'; exact hlt n (List.mem_cons_of_mem _ hn')
+      · rw [hexVal_cons] at hval; rw [hz] at hval; simpa using hval
+      · rw [String.toList_ofList]; cases neg <;> simp [hexPrefix]
+    · have hc : Hex.digit (b.toNat / 16) ≠ '0' := fun h => hz (hd.2.2.2.2.2.mp h)
+      simp only [hc, if_false]
+      refine ⟨(b.toNat / 16) :: (b.toNat % 16) :: nibbles r, by simp, hlt, by simpa using hval, ?_⟩
+      rw [String.toList_ofList]; cases neg <;> simp [hexPrefix]
+
+
+theorem scanLoop_hex : ∀ (ns : List Nat), (∀ n ∈ ns, n < 16) → ∀ (v cnt : Nat) (inv : Bool),
+    scanLoop 16 true (ns.map Hex.digit) v cnt '0' inv = some (hexVal ns v, cnt + ns.length, '0', inv)
+  | [], _, v, cnt, inv => by simp [scanLoop, hexVal]
+  | n :: ns, h, v, cnt, inv => by
+    have hn : n < 16 := h n (by simp)
+    obtain ⟨h1, _, h3, _⟩ := digit_facts' hn
+    rw [List.map_cons]
+    unfold scanLoop
+    have hc : ¬ (Hex.digit n = '_' ∧ true = true) := fun hc => h3 hc.1
+    rw [if_neg hc]
+    simp only [h1]
+    rw [if_neg (show ¬ n ≥ 16 by omega)]
+    rw [scanLoop_hex ns (fun m hm => h m (List.mem_cons_of_mem _ hm))]
+    simp only [hexVal_cons, List.length_cons]
+    have : cnt + 1 + ns.length = cnt + (ns.length + 1) := by omega
+    rw [this]
+
+theorem bigScanNat_hex (ns : List Nat) (hne : ns ≠ []) (h : ∀ n ∈ ns, n < 16) :
+    bigScanNat true ('0' :: 'x' :: ns.map Hex.digit) = some (hexVal ns 0) := by
+  have : ns.length ≠ 0 := by cases ns with | nil => exact absurd rfl hne | cons _ _ => simp
+  simp [bigScanNat, scanLoop_hex ns h, scanFinish, this]
+
+theorem parseBigInt_hex (neg : Bool) (ns : List Nat) (hne : ns ≠ []) (h : ∀ n ∈ ns, n < 16)
+    (s : String) (hs : s.toList = hexPrefix neg ++ ns.map Hex.digit) :
+    parseBigInt s = some (if neg then -(hexVal ns 0 : Int) else (hexVal ns 0 : Int)) := by
+  unfold parseBigInt
+  rw [hs]
+  have e1 : ¬ (('x' : Char) = 'o' ∨ ('x' : Char) = 'O' ∨ ('x' : Char) = 'X' ∨ ('x' : Char) = 'b' ∨ ('x' : Char) = 'B') := by decide
+  cases neg
+  · simp [hexPrefix, bigSetString, bigScanNat_hex ns hne h]
+  · simp [hexPrefix, bigSetString, bigScanNat_hex ns hne h]
+
+theorem formatBigInt_roundtrip (i : Int) : parseBigInt (formatBigInt i) = some i := by
+  unfold formatBigInt
+  have hneg : natBytes i.natAbs = [] → decide (i < 0) = false := by
+    intro hc
+    have := beNat_natBytes i.natAbs
+    rw [hc] at this
+    simp [beNat] at this
+    simp; omega
+  obtain ⟨ns, hne, hlt, hv, hs⟩ := encodeHexNumber_shape (decide (i < 0)) (natBytes i.natAbs) hneg
+  rw [parseBigInt_hex _ ns hne hlt _ hs, hv, beNat_natBytes]
+  congr 1
+  by_cases hi : i < 0
+  · rw [if_pos (by simp [hi])]; omega
+  · rw [if_neg (by simp [hi])]; omega
+
+theorem puLoop_hex (maxVal : Nat) (hmax : maxVal < 2 ^ 64) : ∀ (ns : List Nat), (∀ n ∈ ns, n < 16) →
+    ∀ (n : Nat) (us : Bool), hexVal ns n ≤ maxVal →
+    puLoop 16 true ((2 ^ 64 - 1) / 16 + 1) maxVal (ns.map Hex.digit) n us = some (hexVal ns n, us)
+  | [], _, n, us, _ => by simp [puLoop, hexVal]
+  | d :: ns, h, n, us, hv => by
+    have hd : d < 16 := h d (by simp)
+    obtain ⟨_, h2, h3, _⟩ := digit_facts' hd
+    rw [List.map_cons]
+    unfold puLoop
+    have hc : ¬ (Hex.digit d = '_' ∧ true = true) := fun hc => h3 hc.1
+    rw [if_neg hc]
+    simp only [h2]
+    rw [hexVal_cons] at hv
+    have hge := hexVal_ge ns (n * 16 + d)
+    have e64 : (2:Nat) ^ 64 = 18446744073709551616 := by decide
+    rw [e64] at hmax ⊢
+    rw [if_neg (show ¬ d ≥ 16 by omega), if_neg (show ¬ n ≥ (18446744073709551616 - 1) / 16 + 1 by omega)]
+    have m1 : n * 16 % 18446744073709551616 = n * 16 := Nat.mod_eq_of_lt (by omega)
+    have m2 : (n * 16 + d) % 18446744073709551616 = n * 16 + d := Nat.mod_eq_of_lt (by omega)
+    simp only [m1, m2]
+    rw [if_neg (show ¬ (n * 16 + d < n * 16 ∨ n * 16 + d > maxVal) by omega)]
+    have := puLoop_hex maxVal (by omega) ns (fun m hm => h m (List.mem_cons_of_mem _ hm)) (n * 16 + d) us hv
+    rw [e64] at this
+    rw [this, hexVal_cons]
+
+theorem parseUintChars_hex (bits : Nat) (hb : bits ≤ 64) (ns : List Nat) (hne : ns ≠ [])
+    (h : ∀ n ∈ ns, n < 16) (hv : hexVal ns 0 < 2 ^ bits) :
+    parseUintChars ('0' :: 'x' :: ns.map Hex.digit) bits = some (hexVal ns 0) := by
+  cases ns with
+  | nil => exact absurd rfl hne
+  | cons d ds =>
+    have hp : 0 < 2 ^ bits := Nat.pow_pos (by decide)
+    have hmax : 2 ^ bits - 1 < 2 ^ 64 := by
+      have : 2 ^ bits ≤ 2 ^ 64 := Nat.pow_le_pow_right (by decide) hb
+      omega
+    have := puLoop_hex (2 ^ bits - 1) hmax (d :: ds) h 0 false (by omega)
+    unfold parseUintChars
+    simp only [List.map_cons] at this ⊢
+    have e : (2 ^ 64 - 1) / 16 + 1 = 1152921504606846976 := by decide
+    rw [e] at this
+    simp [this]
+
+theorem beNat_sizeToBytes (v : Nat) (h : v < 2 ^ 64) : beNat (sizeToBytes v) = v := by
+  have := size_roundtrip v h
+  unfold safeBytesToSize64 at this
+  split at this
+  · cases this
+  · exact Option.some.inj this
+
+theorem sizeToBytes_ne_nil (v : Nat) (h : v < 2 ^ 64) : sizeToBytes v ≠ [] := by
+  by_cases h0 : v = 0
+  · subst h0; decide
+  · exact ((size_minimal v h).2 h0).2
+
+theorem formatUint_roundtrip (bits : Nat) (hb : bits ≤ 64) (v : Nat) (h : v < 2 ^ bits) :
+    parseUint (formatUint v) bits = some v := by
+  have h64 : v < 2 ^ 64 := Nat.lt_of_lt_of_le h (Nat.pow_le_pow_right (by decide) hb)
+  obtain ⟨ns, hne, hlt, hv, hs⟩ := encodeHexNumber_shape false (sizeToBytes v) (fun _ => rfl)
+  unfold parseUint formatUint
+  rw [hs, beNat_sizeToBytes v h64] at *
+  simp only [hexPrefix, Bool.false_eq_true, if_false, List.cons_append, List.nil_append]
+  rw [parseUintChars_hex bits hb ns hne hlt (by omega), hv]
+
+theorem formatInt_roundtrip (bits : Nat) (hb1 : 1 ≤ bits) (hb : bits ≤ 64) (v : Int)
+    (h : -(2:Int) ^ (bits - 1) ≤ v ∧ v < (2:Int) ^ (bits - 1)) :
+    parseInt (formatInt v) bits = some v := by
+  have hpow : ((2 ^ (bits - 1) : Nat) : Int) = (2:Int) ^ (bits - 1) := by push_cast; rfl
+  have habs : v.natAbs ≤ 2 ^ (bits - 1) := by omega
+  have hlt2 : 2 ^ (bits - 1) < 2 ^ bits := Nat.pow_lt_pow_right (by decide) (by omega)
+  have h64 : v.natAbs < 2 ^ 64 := by
+    have : 2 ^ bits ≤ 2 ^ 64 := Nat.pow_le_pow_right (by decide) hb
+    omega
+  obtain ⟨ns, hne, hlt, hv, hs⟩ := encodeHexNumber_shape (decide (v < 0)) (sizeToBytes v.natAbs)
+    (fun hc => absurd hc (sizeToBytes_ne_nil _ h64))
+  rw [beNat_sizeToBytes _ h64] at hv
+  have hpu := parseUintChars_hex bits hb ns hne hlt (by rw [hv]; exact Nat.lt_of_le_of_lt habs hlt2)
+  unfold parseInt formatInt
+  rw [hs]
+  by_cases hneg : v < 0
+  · simp only [hneg, decide_true, hexPrefix, if_true, List.cons_append, List.nil_append]
+    have e1 : ¬ (('-' : Char) = '+') := by decide
+    simp only [if_neg e1, if_true, hpu, hv]
+    rw [if_neg (fun hc => hc.1 trivial), if_neg (fun hc => absurd hc.2 (by omega))]
+    congr 1; omega
+  · simp only [hneg, decide_false, hexPrefix, Bool.false_eq_true, if_false, List.cons_append, List.nil_append]
+    have e1 : ¬ (('0' : Char) = '+') := by decide
+    have e2 : ¬ (('0' : Char) = '-') := by decide
+    simp only [if_neg e1, if_neg e2, hpu, hv]
+    have hlt3 : ¬ v.natAbs ≥ 2 ^ (bits - 1) := by omega
+    rw [if_neg (fun hc => hlt3 hc.2), if_neg (fun hc => absurd hc.1 (by decide)), if_neg (by decide)]
+    congr 1; omega
+
+theorem beNat_ge_of_head {b : UInt8} {r : Bytes} (hb : b ≠ 0) : 256 ^ r.length ≤ beNat (b :: r) := by
+  rw [beNat_cons]
+  have hb1 : 1 ≤ b.toNat := by
+    have : b.toNat ≠ 0 := fun hz => hb (UInt8.toNat_inj.mp (by simpa using hz))
+    omega
+  have : 1 * 256 ^ r.length ≤ b.toNat * 256 ^ r.length := Nat.mul_le_mul_right _ hb1
+  omega
+
+/-- unsigned minimality: every string with value `v` is at least as long as `SizeToBytes v`. -/
+theorem size_shortest (v : Nat) (h : v < 2 ^ 64) (bs : Bytes) (hne : bs ≠ []) (hv : beNat bs = v) :
+    (sizeToBytes v).length ≤ bs.length := by
+  by_cases h0 : v = 0
+  · subst h0
+    have : sizeToBytes 0 = [0] := rfl
+    rw [this]
+    cases bs with
+    | nil => exact absurd rfl hne
+    | cons _ _ => simp
+  · obtain ⟨hh, hn⟩ := (size_minimal v h).2 h0
+    have hval := beNat_sizeToBytes v h
+    cases hs : sizeToBytes v with
+    | nil => exact absurd hs hn
+    | cons b r =>
+      rw [hs] at hh hval
+      have hb : b ≠ 0 := by intro hc; apply hh; rw [hc]; rfl
+      have h1 := beNat_ge_of_head (r := r) hb
+      have h2 := beNat_lt bs
+      rw [hv] at h2; rw [hval] at h1
+      have : 256 ^ r.length < 256 ^ bs.length := by omega
+      have := (Nat.pow_lt_pow_iff_right (a := 256) (by decide)).mp this
+      simp; omega
+
+/-- `encodeHexNumber_shape` plus: when the first byte is non-zero the first printed digit is non-zero. -/
+theorem encodeHexNumber_shape_min (neg : Bool) (b : UInt8) (r : Bytes) (hb : b ≠ 0) :
+    ∃ n ns, n ≠ 0 ∧ (∀ m ∈ n :: ns, m < 16) ∧ hexVal (n :: ns) 0 = beNat (b :: r) ∧
+      (encodeHexNumber neg (b :: r)).toList = hexPrefix neg ++ (n :: ns).map Hex.digit := by
+  unfold encodeHexNumber
+  simp only [encode_toList]
+  have hn : nibbles (b :: r) = (b.toNat / 16) :: (b.toNat % 16) :: nibbles r := by simp [nibbles]
+  have hlt := nibbles_lt (b :: r)
+  have hval := hexVal_nibbles (b :: r) 0
+  rw [hn] at hlt hval
+  rw [hn]
+  simp only [List.map_cons]
+  have hbl := b.toNat_lt
+  have hb0 : b.toNat ≠ 0 := fun hz => hb (UInt8.toNat_inj.mp (by simpa using hz))
+  have hd := digit_facts' (n := b.toNat / 16) (by omega)
+  by_cases hz : b.toNat / 16 = 0
+  · have hc : Hex.digit (b.toNat / 16) = '0' := hd.2.2.2.2.2.mpr hz
+    simp only [hc, if_true]
+    refine ⟨b.toNat % 16, nibbles r, by omega, ?_, ?_, ?_⟩
+    · intro n hn'; exact hlt n (List.mem_cons_of_mem _ hn')
+    · rw [hexVal_cons] at hval; rw [hz] at hval; simpa using hval
+    · rw [String.toList_ofList]; cases neg <;> simp [hexPrefix]
+  · have hc : Hex.digit (b.toNat / 16) ≠ '0' := fun h => hz (hd.2.2.2.2.2.mp h)
+    simp only [hc, if_false]
+    refine ⟨b.toNat / 16, (b.toNat % 16) :: nibbles r, hz, hlt, by simpa using hval, ?_⟩
+    rw [String.toList_ofList]; cases neg <;> simp [hexPrefix]
+
+theorem natBytes_head_ne_zero (v : Nat) (h : v ≠ 0) : ∃ b r, natBytes v = b :: r ∧ b ≠ 0 := by
+  obtain ⟨hv, L, hL, h1, _⟩ := natBytes_spec v h
+  cases hs : natBytes v with
+  | nil => rw [hs] at hL; simp at hL
+  | cons b r =>
+    refine ⟨b, r, rfl, ?_⟩
+    intro hb; subst hb
+    rw [hs] at hv hL
+    have hr : r.length = L := by simpa using hL
+    rw [beNat_cons] at hv
+    have := beNat_lt r
+    rw [hr] at this
+    simp at hv; omega
+
+/-- `FormatBigInt` prints no superfluous leading zero: "0x0" for zero, else first digit ≠ 0. -/
+theorem formatBigInt_minimal (i : Int) :
+    (i = 0 ∧ formatBigInt i = "0x0") ∨
+    (i ≠ 0 ∧ ∃ n ns, n ≠ 0 ∧ (∀ m ∈ n :: ns, m < 16) ∧ hexVal (n :: ns) 0 = i.natAbs ∧
+      (formatBigInt i).toList = hexPrefix (decide (i < 0)) ++ (n :: ns).map Hex.digit) := by
+  by_cases h0 : i = 0
+  · left; subst h0; exact ⟨rfl, by decide⟩
+  · right
+    refine ⟨h0, ?_⟩
+    obtain ⟨b, r, hbr, hb⟩ := natBytes_head_ne_zero i.natAbs (by omega)
+    unfold formatBigInt
+    rw [hbr]
+    obtain ⟨n, ns, a1, a2, a3, a4⟩ := encodeHexNumber_shape_min (decide (i < 0)) b r hb
+    refine ⟨n, ns, a1, a2, ?_, a4⟩
+    rw [a3, ← hbr, beNat_natBytes]
 
 end Goloop.C24.Proofs
